@@ -38,6 +38,7 @@ type StrTag struct {
 	isFloat bool
 	fmtC    byte
 	prec    int
+	precT   *Term // symbolic precision (prec == -2)
 	mat     []Value // materialised cells (per path)
 }
 
@@ -453,6 +454,16 @@ func (w *Worker) tagEq(a, b Str) (*Term, bool) {
 		if a.tag.isFloat {
 			if a.tag.fmtC != b.tag.fmtC || a.tag.prec != b.tag.prec {
 				return nil, false
+			}
+			if a.tag.precT != nil || b.tag.precT != nil {
+				if a.tag.precT == nil || b.tag.precT == nil {
+					return nil, false
+				}
+				x1, x2 := a.tag.precT.hash()
+				y1, y2 := b.tag.precT.hash()
+				if x1 != y1 || x2 != y2 {
+					return nil, false
+				}
 			}
 			return newTerm("=", SBool, liftFloat(a.tag.fpOf), liftFloat(b.tag.fpOf)), true
 		}
